@@ -141,7 +141,9 @@ def gen_case(rng, tier, allow_big=True):
     numbers = rng.sample(range(40), nimg)
     for k in numbers:
         sub = rng.choice(['', '', 'seq a/', 'cam0/sub.dir/', 'ünï/']) if fancy else rng.choice(['', '', 'left/'])
-        name = f'{sub}img{k:02d}.jpg'
+        # extensions and extension-less names: their last characters matter to anything that strips a suffix by character set
+        ext = rng.choice(['.jpg', '.jpg', '.png', '.tif', '.tiff', '.bmp', '.jpe', '.JPG', '', '.features', '.npz'])
+        name = f'{sub}img{k:02d}{ext}' if ext else f'{sub}frame{k:02d}s'
         while True:
             key = (kgen.gen_timestamp(rng, style), rng.choice(cam_ids))
             if key not in used:
